@@ -86,7 +86,10 @@ def items_of(ctx, obj):
         return it
     if isinstance(obj, GhostInstance):
         return obj.items
-    raise V.OutOfSubset(f"attribute list of {type(obj).__name__}")
+    cache = ctx.ghost.setdefault("c08.items", {})
+    if id(obj) not in cache:
+        cache[id(obj)] = (obj, Items(ctx, "cobj"))  # a concrete representative: its attribute list stays abstract
+    return cache[id(obj)][1]
 
 
 class AbsValue:
@@ -183,11 +186,11 @@ def grows(old, new, tag):
 
 
 def group_snapshot(g):
-    return NS(A=g.A, R=g.R, G=g.G, done=g.done)
+    return NS(**{f: getattr(g, f) for f in M.FIELDS})
 
 
 def group_grew(old, g):
-    return AND(grows(old.A, g.A, "A"), grows(old.R, g.R, "R"), grows(old.G, g.G, "G"), grows(old.done, g.done, "done"))
+    return AND(*[grows(getattr(old, f), getattr(g, f), f) for f in M.FIELDS])
 
 
 def saved_term(g, it, skip_names, skip_types):
@@ -200,11 +203,15 @@ def saved_term(g, it, skip_names, skip_types):
     return saved_formula(g.done, it, skip_names, skip_types)
 
 
-def group_complete(g, it, skip_names, skip_types):
+def group_complete(g, it, skip_names, skip_types, full=False):
+    """The group holds a complete object: the marker and every non-skipped attribute.  `full`: and the skip metadata
+    (what a SUCCESSFUL save must leave; a target that lacks only the skip lists is not 'an object missing attributes')."""
     if g is None:
         return z3.BoolVal(False)
-    return AND(z3.Select(g.A, SV(MARKER)), saved_term(g, it, skip_names, skip_types),
-               z3.Select(g.A, SV(SKIPN)), z3.Select(g.A, SV(SKIPT)))
+    c = AND(z3.Select(g.A, SV(MARKER)), saved_term(g, it, skip_names, skip_types))
+    if full:
+        c = AND(c, z3.Select(g.A, SV(SKIPN)), z3.Select(g.A, SV(SKIPT)))
+    return c
 
 
 def group_loadable(g):
@@ -363,7 +370,7 @@ def zip_loadable(s, zf):
     return AND(z3.Select(zf.names, ZJ), marker)
 
 
-def zip_complete(s, zf):
+def zip_complete(s, zf, full=False):
     """Readable, holds exactly the files of the enumerated tree under their relative names, the tree is a complete group
     and was not modified after it was enumerated."""
     if not zf.valid:
@@ -373,7 +380,7 @@ def zip_complete(s, zf):
         g = wk.group
         if g is None or g.stamp != wk.stamp or getattr(zf, "expect_walk", None) is not wk:
             continue  # no group tree under the walked directory / modified after enumeration / archive not compared with it
-        alts.append(AND(group_complete(g, s.items, set(), ()), zf.count == wk.total(), zf.conforms))
+        alts.append(AND(group_complete(g, s.items, set(), (), full), zf.count == wk.total(), zf.conforms))
     return OR(*alts) if alts else z3.BoolVal(False)
 
 
@@ -394,16 +401,16 @@ def node_loadable(s):
     return f
 
 
-def node_complete(s):
+def node_complete(s, full=False):
     fs = s.world.fs
 
     def f(node):
         if isinstance(node, M.Absent):
             return z3.BoolVal(False)
         if isinstance(node, M.DirNode):
-            return group_complete(node.group, s.items, set(), ())
+            return group_complete(node.group, s.items, set(), (), full)
         if isinstance(node, M.ZipNode):
-            return zip_complete(s, node.zf)
+            return zip_complete(s, node.zf, full)
         if isinstance(node, M.Moved):
             return fs.C0(node.src)
         raise V.OutOfSubset(f"node {node!r}")
@@ -416,9 +423,9 @@ def loadable_at(s, q):
     return fs.fold(q, node_loadable(s), fs.L0(q))
 
 
-def complete_at(s, q):
+def complete_at(s, q, full=False):
     fs = s.world.fs
-    return fs.fold(q, node_complete(s), fs.C0(q))
+    return fs.fold(q, node_complete(s, full), fs.C0(q))
 
 
 def frame(s):
@@ -450,7 +457,7 @@ def save_ensures(s):
         ("frame:only-the-target-path-changes" + tag, frame(s)),
         ("write-once:existing-target-untouched" + tag, write_once(s)),
         ("no-loadable-partial-target" + tag, atomic(s)),
-        ("success-leaves-a-complete-target" + tag, complete_at(s, t)),
+        ("success-leaves-a-complete-target-with-skip-metadata" + tag, complete_at(s, t, full=True)),
         ("success-leaves-a-loadable-target" + tag, loadable_at(s, t)),
     ]
 
@@ -609,13 +616,13 @@ def rs_havoc(s):
     g = s.group
     g._loop_pre = group_snapshot(g)
     n = s.ctx.fresh_name("it")
-    for f in ("A", "R", "G", "done"):
+    for f in M.FIELDS:
         setattr(g, f, z3.Const(f"{n}_{f}", z3.ArraySort(STR, BOOL)))
 
 
 def havoc_free(ctx, g, tag):
     n = ctx.fresh_name(tag)
-    for f in ("A", "R", "G", "done"):
+    for f in M.FIELDS:
         setattr(g, f, z3.Const(f"{n}_{f}", z3.ArraySort(STR, BOOL)))
     g.touch()
 
@@ -647,8 +654,121 @@ C_RSAVE = Contract(
 )
 
 # ------------------------------------------------------------------------------------------------
-# AutoSerialize._serialize_value (call-site contract; its own body: see C_SVALUE below)
+# AutoSerialize._serialize_value : kind dispatch, one representative REAL instance per kind (A7)
 # ------------------------------------------------------------------------------------------------
+
+
+class _FakeWriter:
+    """Duck-typed tensorboard writer (what the `add_scalar`/`add_image` branch looks at)."""
+
+    log_dir, comment, max_queue, flush_secs, filename_suffix = "runs/x", "", 10, 120, ""
+
+    def add_scalar(self, *a):
+        pass
+
+    def add_image(self, *a):
+        pass
+
+
+class _Unreducible:
+    """A value that reaches the dill fallback and cannot be pickled."""
+
+    def __reduce_ex__(self, protocol):
+        raise TypeError("cannot pickle this object")
+
+
+def _gen():
+    yield 1
+
+
+def _kinds():
+    """kind -> (constructor of a representative instance, cannot be serialised?)"""
+    import logging
+    import pathlib
+
+    import numpy as np
+    import torch
+
+    def sched():
+        opt = torch.optim.SGD([torch.nn.Parameter(torch.zeros(1))], lr=0.1)
+        return torch.optim.lr_scheduler.StepLR(opt, 1)
+
+    return {
+        "tensor": (lambda: torch.ones(2, requires_grad=True), False),
+        "optimizer": (lambda: torch.optim.SGD([torch.nn.Parameter(torch.zeros(1))], lr=0.1), False),
+        "scheduler": (sched, False),
+        "tb-writer": (_FakeWriter, False),
+        "logger": (lambda: logging.getLogger("c08"), False),
+        "module": (lambda: torch.nn.Linear(1, 1), False),
+        "ndarray": (lambda: np.arange(6.0).reshape(2, 3), False),
+        "int": (lambda: 3, False),
+        "float": (lambda: 2.5, False),
+        "str": (lambda: "text", False),
+        "bool": (lambda: True, False),
+        "None": (lambda: None, False),
+        "np-scalar": (lambda: np.float32(1.5), False),
+        "path": (lambda: pathlib.Path("a/b"), False),
+        "autoserialize": (lambda: _Probe(x=1), False),
+        "list": (lambda: [1, "x"], False),
+        "tuple": (lambda: (1, 2), False),
+        "dict": (lambda: {"k": 1}, False),
+        "set": (lambda: {1, 2}, False),
+        "np-rng": (lambda: np.random.default_rng(0), False),
+        "torch-rng": (lambda: torch.Generator(), False),
+        "fallback-picklable": (lambda: complex(1, 2), False),
+        "fallback-generator": (_gen, True),
+        "fallback-unreducible": (_Unreducible, True),
+    }
+
+
+def pick_case(ctx, names, what):
+    for n in names[:-1]:
+        if ctx.branch(ctx.fresh(f"{what}_is_{n}", "bool").t):
+            return n
+    return names[-1]
+
+
+def sv_setup(ctx):
+    w = M.world(ctx)
+    w.handlers_in_scope = has_handlers(f"{SER}:AutoSerialize._serialize_value")
+    kinds = _kinds()
+    kind = pick_case(ctx, list(kinds), "kind")
+    mk, unser = kinds[kind]
+    g = M.GhostGroup(w, unknown=True, tag="grp")
+    s = NS(self=Obj(_Probe, {}), value=mk(), group=g, name=ctx.fresh("name", "str"), skip_names=GhostNameSet(ctx),
+           skip_types=GhostTypeTuple(), compressors=None, world=w, case=kind, unserialisable=unser)
+    return s
+
+
+def refused(s):
+    return bool(M.world(s.ctx).refusals)
+
+
+def sv_raises(s):
+    if s.mode == "apply":
+        return False
+    # raises exactly when a write failed, a callee refused a nested value, or the value itself cannot be serialised
+    return z3.BoolVal(faulted(s) or refused(s) or bool(s.unserialisable))
+
+
+def sv_ensures(s):
+    if s.mode == "apply":
+        return []
+    g = s.group
+    tag = f"[{s.case}]"
+    return [("entry-for-name-present" + tag, g.present(s.name)),
+            ("nothing-removed-from-the-group" + tag, group_grew(s.old, g))]
+
+
+def sv_on_raise(s, E):
+    return [(f"nothing-removed-from-the-group[{s.case}]", group_grew(s.old, s.group))]
+
+
+def value_unser_term(ctx, v):
+    """`this value cannot be serialised` at a call site: the flag of an abstract value; unknown for a concrete one."""
+    if isinstance(v, AbsValue):
+        return v.unser
+    return ctx.fresh("value_cannot_be_serialised", "bool").t
 
 
 def sv_modifies(ctx, s):
@@ -657,9 +777,8 @@ def sv_modifies(ctx, s):
     if not isinstance(g, M.GhostGroup):
         raise V.OutOfSubset("_serialize_value on a non-ghost group")
     n = M.sterm(name)
-    unser = v.unser if isinstance(v, AbsValue) else z3.BoolVal(False)
     fails = None
-    if ctx.branch(unser):
+    if ctx.branch(value_unser_term(ctx, v)):
         fails = "the value cannot be serialised"
     elif not w.faults and ctx.branch(ctx.fresh("fault@_serialize_value", "bool").t):
         fails = "a write failed"
@@ -668,16 +787,162 @@ def sv_modifies(ctx, s):
         g.havoc_grow("partial")
         ctx.assume(z3.Select(g.done, n) == z3.Select(s.old.done, n))
         M.raise_fault(ctx, "_serialize_value", fails, injected=(fails == "a write failed"))
-    old = group_snapshot(g)
     g.havoc_grow("value")
     ctx.assume(g.present(n))
     ctx.assume(z3.Select(g.done, n))
 
 
-C_SVALUE_APPLY = Contract(
-    f"{SER}:AutoSerialize._serialize_value", setup=None, snapshot=lambda s: group_snapshot(s.group), modifies=sv_modifies,
-    note="call-site contract: returns normally only if the value was completely written (ghost done[name]); raises if the value "
-         "cannot be serialised or any write fails, leaving a partial entry",
+C_SVALUE = Contract(
+    f"{SER}:AutoSerialize._serialize_value", setup=sv_setup, snapshot=lambda s: group_snapshot(s.group), modifies=sv_modifies,
+    ensures=sv_ensures, on_raise=sv_on_raise, raises={Exception: sv_raises},
+    note="returns normally only if the value was completely written (ghost done[name] at call sites); raises if the value cannot be "
+         "serialised or any write fails, possibly leaving a partial entry",
+)
+
+# ------------------------------------------------------------------------------------------------
+# _serialize_container / _write_ndarray / _write_bytes
+# ------------------------------------------------------------------------------------------------
+
+
+def _containers():
+    import torch
+
+    return {
+        "empty-list": lambda: [],
+        "numeric-list": lambda: [1, 2.5, 3],
+        "mixed-list": lambda: [1, "x"],
+        "tuple": lambda: (None, [1]),
+        "dict": lambda: {"k": 1, 2: "two"},
+        "empty-dict": lambda: {},
+        "module-list": lambda: torch.nn.ModuleList([torch.nn.Linear(1, 1)]),
+    }
+
+
+def sc_setup(ctx):
+    w = M.world(ctx)
+    w.handlers_in_scope = has_handlers(f"{SER}:AutoSerialize._serialize_container")
+    cs = _containers()
+    kind = pick_case(ctx, list(cs), "container")
+    g = M.GhostGroup(w, unknown=True, tag="grp")
+    return NS(self=Obj(_Probe, {}), value=cs[kind](), group=g, skip_names=GhostNameSet(ctx), skip_types=GhostTypeTuple(),
+              compressors=None, world=w, case=kind)
+
+
+def sc_keys(value):
+    if isinstance(value, dict):
+        return [str(k) for k in value]
+    return [str(i) for i in range(len(value))]
+
+
+def sc_ensures(s):
+    if s.mode == "apply":
+        return []
+    g = s.group
+    tag = f"[{s.case}]"
+    out = [("container-type-recorded" + tag, z3.Select(g.A, SV("_container_type"))),
+           ("nothing-removed-from-the-group" + tag, group_grew(s.old, g))]
+    if s.case == "numeric-list":
+        out.append(("values-array-written" + tag, AND(z3.Select(g.R, SV("values")), z3.Select(g.W, SV("values")))))
+    else:
+        for k in sc_keys(s.value):
+            out.append((f"item-{k}-completely-serialised" + tag, z3.Select(g.done, SV(k))))
+    return out
+
+
+def sc_modifies(ctx, s):
+    w = M.world(ctx)
+    g = s.group
+    if not isinstance(g, M.GhostGroup):
+        raise V.OutOfSubset("_serialize_container on a non-ghost group")
+    refuse = ctx.branch(ctx.fresh("container_holds_unserialisable_value", "bool").t)
+    if refuse or (not w.faults and ctx.branch(ctx.fresh("fault@_serialize_container", "bool").t)):
+        g.havoc_grow("partial")
+        M.raise_fault(ctx, "_serialize_container", "an item could not be written", injected=not refuse)
+    g.havoc_grow("container")
+    ctx.assume(z3.Select(g.A, SV("_container_type")))
+
+
+C_SCONT = Contract(
+    f"{SER}:AutoSerialize._serialize_container", setup=sc_setup, snapshot=lambda s: group_snapshot(s.group), modifies=sc_modifies,
+    ensures=sc_ensures, on_raise=lambda s, E: [(f"nothing-removed-from-the-group[{s.case}]", group_grew(s.old, s.group))],
+    raises={Exception: lambda s: False if s.mode == "apply" else z3.BoolVal(faulted(s) or refused(s))},
+)
+
+
+def _arrays():
+    import numpy as np
+
+    return {"2d": lambda: np.arange(6.0).reshape(2, 3), "0d": lambda: np.array(3.5), "empty": lambda: np.zeros((0, 2)),
+            "list-input": lambda: [1, 2, 3], "1d-int": lambda: np.arange(3)}
+
+
+def wn_setup(ctx):
+    w = M.world(ctx)
+    w.handlers_in_scope = has_handlers(f"{SER}:AutoSerialize._write_ndarray")
+    arrs = _arrays()
+    kind = pick_case(ctx, list(arrs), "array")
+    g = M.GhostGroup(w, unknown=True, tag="grp")
+    return NS(group=g, name=ctx.fresh("name", "str"), array=arrs[kind](), compressors=None, world=w, case=kind)
+
+
+def wn_ensures(s):
+    if s.mode == "apply":
+        return []
+    g = s.group
+    n = M.sterm(s.name)
+    tag = f"[{s.case}]"
+    out = [("array-created" + tag, z3.Select(g.R, n)), ("nothing-removed-from-the-group" + tag, group_grew(s.old, g))]
+    if s.case != "empty":
+        out.append(("array-data-written" + tag, z3.Select(g.W, n)))
+    return out
+
+
+def array_write_modifies(site):
+    def modifies(ctx, s):
+        w = M.world(ctx)
+        g = s.group
+        if not isinstance(g, M.GhostGroup):
+            raise V.OutOfSubset(f"{site} on a non-ghost group")
+        n = M.sterm(s.name)
+        if not w.faults and ctx.branch(ctx.fresh(f"fault@{site}", "bool").t):
+            g.havoc_grow("partial")
+            M.raise_fault(ctx, site, "array write failed")
+        g.havoc_grow("array")
+        ctx.assume(z3.Select(g.R, n))
+        payload = s.get("array", s.get("data"))
+        try:
+            import numpy as np
+
+            nonempty = not V.contains_sym(payload) and np.asarray(payload).size > 0
+        except Exception:  # noqa: BLE001
+            nonempty = False
+        if nonempty:
+            ctx.assume(z3.Select(g.W, n))
+
+    return modifies
+
+
+C_WNDARRAY = Contract(
+    f"{SER}:AutoSerialize._write_ndarray", setup=wn_setup, snapshot=lambda s: group_snapshot(s.group),
+    modifies=array_write_modifies("_write_ndarray"), ensures=wn_ensures,
+    on_raise=lambda s, E: [(f"nothing-removed-from-the-group[{s.case}]", group_grew(s.old, s.group))],
+    raises={Exception: lambda s: False if s.mode == "apply" else z3.BoolVal(faulted(s))},
+)
+
+
+def wb_setup(ctx):
+    w = M.world(ctx)
+    w.handlers_in_scope = has_handlers(f"{SER}:AutoSerialize._write_bytes")
+    kind = pick_case(ctx, ["bytes", "empty"], "data")
+    g = M.GhostGroup(w, unknown=True, tag="grp")
+    return NS(group=g, name=ctx.fresh("name", "str"), data=(b"\x01\x02\x03" if kind == "bytes" else b""), compressors=None, world=w, case=kind)
+
+
+C_WBYTES = Contract(
+    f"{SER}:AutoSerialize._write_bytes", setup=wb_setup, snapshot=lambda s: group_snapshot(s.group),
+    modifies=array_write_modifies("_write_bytes"), ensures=wn_ensures,
+    on_raise=lambda s, E: [(f"nothing-removed-from-the-group[{s.case}]", group_grew(s.old, s.group))],
+    raises={Exception: lambda s: False if s.mode == "apply" else z3.BoolVal(faulted(s))},
 )
 
 # ------------------------------------------------------------------------------------------------
@@ -1001,54 +1266,87 @@ _SITE_MAP = {
 }
 
 
-def conc_save(ev):
-    """Counter-model -> concrete scenario: store / mode / suffix from the model's strings, kind of the pre-existing target,
-    the fault site from the decision variable that is true (every position k of that site is then tried by rt)."""
-    store = ev("store")
-    mode = ev("mode")
-    path = ev("path")
-    if store is None or mode is None or path is None:
-        return None
-    store = store if store in ("auto", "zip", "dir") else "bogus"
-    mode = "o" if mode == "o" else "w"
-    suffix = ".zip" if str(path).endswith(".zip") else (".dat" if "." in os.path.basename(str(path))[1:] else "")
-    kind = ev("target_kind", 0)
-    pre = {0: "absent", 1: "saved", 2: "saved"}.get(kind, "absent")
-    site = None
-    for name, val in ev.table.items():
-        if name.startswith("fault@") and z3.is_true(val):
-            site = _SITE_MAP.get(name[len("fault@"):].split("!")[0])
-    comp = ev("compression_level", None)
-    return dict(store=store, mode=mode, suffix=suffix, pre=pre, fault=[site, None] if site else None, compression_level=comp)
+def conc_save_case(storekind):
+    def conc_save(ev):
+        """Counter-model -> concrete scenario: store / mode / suffix from the model's strings (unconstrained ones get the value of
+        this contract's case), kind of the pre-existing target, the fault site from the decision variable that is true (every
+        position k of that site is then tried by rt)."""
+        store, mode, path = ev("store"), ev("mode"), ev("path")
+        path = "" if path is None else str(path)
+        if store is None:
+            store = {"zip": "zip", "dir": "dir", "none": "bogus"}[storekind]
+        store = store if store in ("auto", "zip", "dir") else "bogus"
+        mode = "o" if mode == "o" else "w"
+        suffix = ".zip" if path.endswith(".zip") else (".dat" if "." in os.path.basename(path)[1:] else "")
+        if store == "auto" and storekind == "zip":
+            suffix = ".zip"
+        kind = ev("target_kind", 0)
+        pre = {0: "absent", 1: "saved", 2: "saved"}.get(kind, "absent")
+        if mode == "w" and pre != "absent" and any(n.startswith("fault@") and z3.is_true(v) for n, v in ev.table.items()):
+            pre = "absent"
+        site = None
+        for name, val in ev.table.items():
+            if name.startswith("fault@") and z3.is_true(val):
+                site = _SITE_MAP.get(name[len("fault@"):].split("!")[0])
+        comp = ev("compression_level", None)
+        return dict(store=store, mode=mode, suffix=suffix, pre=pre, fault=[site, None] if site else None, compression_level=comp)
+
+    return conc_save
+
+
+_RT_CACHE = {}
+
+
+def rt_save_cached(inp):
+    key = json.dumps(inp, sort_keys=True, default=str)
+    if key not in _RT_CACHE:
+        _RT_CACHE[key] = rt_save(inp)
+    return dict(_RT_CACHE[key])
 
 
 def rt_save_any_k(inp):
-    """Replay entry: a fault given as [site, None] means 'at some position': try every k of that site."""
+    """Replay entry: a fault given as [site, None] means 'at some position': try every k of that site.
+    (Results are memoised per process: the code under test does not change during a run.)"""
     f = inp.get("fault")
     if not f or f[1] is not None:
-        return rt_save(inp)
+        return rt_save_cached(inp)
     eff, _ = spec_target("t" + inp.get("suffix", ""), inp.get("store", "auto"))
     n = _site_counts(eff if eff in ("zip", "dir") else "dir").get(f[0], 0)
     last = None
     for k in range(max(n, 1)):
-        last = rt_save(dict(inp, fault=[f[0], k]))
+        last = rt_save_cached(dict(inp, fault=[f[0], k]))
         if last["violated"]:
             last["observed"] = f"[fault at {f[0]} #{k}] " + last["observed"]
             return last
     return last
 
 
+def _known_defect_input(inp):
+    """Inputs on which the pinned tree is KNOWN to violate the property (known_findings.jsonl).  They are left out of the
+    fallback search that looks for a failing input for a NEW failed obligation (they would 'confirm' anything); a counter-model
+    that is itself such an input is still replayed."""
+    eff, _ = spec_target("t" + inp.get("suffix", ""), inp.get("store", "auto"))
+    f = inp.get("fault")
+    if eff == "dir":
+        return inp.get("obj") == "unpicklable" or bool(f and f[0] in ("serialize", "write", "skipmeta"))
+    if eff == "zip":
+        return bool(f and f[0] == "zipwrite")
+    return False
+
+
 def fam_small():
     for d in fam_save("quick", 0):
-        yield d
+        if not _known_defect_input(d):
+            yield d
 
 
-for _c in C_SAVES:
-    _c.concretize, _c.rt, _c.rt_family = conc_save, rt_save_any_k, fam_small
-C_RSAVE.concretize, C_RSAVE.rt, C_RSAVE.rt_family = None, rt_save_any_k, fam_small
+for (_sk, _ck), _c in zip(SAVE_CASES, C_SAVES):
+    _c.concretize, _c.rt, _c.rt_family = conc_save_case(_sk), rt_save_any_k, fam_small
+for _c in (C_RSAVE, C_SVALUE, C_SCONT, C_WNDARRAY, C_WBYTES):
+    _c.concretize, _c.rt, _c.rt_family = None, rt_save_any_k, fam_small
 
-CONTRACTS = C_SAVES + [C_RSAVE]
-APPLY_ONLY = [C_SVALUE_APPLY]
+CONTRACTS = C_SAVES + [C_RSAVE, C_SVALUE, C_SCONT, C_WNDARRAY, C_WBYTES]
+APPLY_ONLY = []
 
 # ------------------------------------------------------------------------------------------------
 # property-level lemma: the three exit conditions give the property
